@@ -124,12 +124,30 @@ func c10Server(w *mon.W, P uint32, V string, vi int) {
 	}
 	h := rawSrv(sh)
 	defer h.close()
-	h.send(&p9p.Fcall{Type: p9p.Tversion, Tag: p9p.NOTAG, Message: p9p.MessageTversion{MSize: P, Version: V}})
+	pipelined := false
+	if w.Rng.Intn(4) == 0 && c10min(P) >= 64 && V == "9P2000" {
+		// the client does not wait for the Rversion: its first request (a frame of exactly the
+		// size that will be agreed) follows the Tversion in the same write
+		pipelined = true
+		M0 := c10min(P)
+		first := &p9p.Fcall{Type: p9p.Twrite, Tag: 9, Message: p9p.MessageTwrite{Fid: 1, Offset: 5, Data: make([]byte, M0-23)}}
+		h.sendRaw(append(refcodec.MustFrame(&p9p.Fcall{Type: p9p.Tversion, Tag: p9p.NOTAG, Message: p9p.MessageTversion{MSize: P, Version: V}}), refcodec.MustFrame(first)...))
+		w.Count("server:first-request-pipelined", 1)
+	} else {
+		h.send(&p9p.Fcall{Type: p9p.Tversion, Tag: p9p.NOTAG, Message: p9p.MessageTversion{MSize: P, Version: V}})
+	}
 	if !settle() {
 		w.Inconclusive("watchdog")
 		return
 	}
 	rs := h.take()
+	if pipelined {
+		if len(rs) != 2 || rs[1].Type != p9p.Rwrite || len(seenWrite) != c10min(P)-23 {
+			bad("pipelined-first-request-lost", "a request of exactly the agreed size sent right behind the Tversion was not served: replies %s, handler saw %d bytes", describeReplies(rs), len(seenWrite))
+			return
+		}
+		rs = rs[:1]
+	}
 	w.Count("server:handshakes", 1)
 	want := c10min(P)
 	if want < 19 {
